@@ -59,7 +59,60 @@ METHODS = {
 }
 
 
+def _swap_pairs(ctx, rep):
+    """SWAP exchanges exactly its two operands: each operand's name is looked up with its own subscripts."""
+    sw = ctx.fn('pcbasic/basic/memory/memory.py:DataSegment.swap_')
+    pairs = []
+    for a in own_nodes(sw):
+        if isinstance(a, ast.Assign) and isinstance(a.targets[0], ast.Tuple) and len(a.targets[0].elts) == 2 \
+                and all(isinstance(e, ast.Name) for e in a.targets[0].elts) and norm(a.value) == 'next(args)':
+            pairs.append(tuple(e.id for e in a.targets[0].elts))
+    rep.ob('swap.operands-paired', 'swap_ reads two (name, subscripts) operands', len(pairs) == 2, repr(pairs), ctx.where(sw))
+    views = [c for c in own_nodes(sw) if isinstance(c, ast.Call) and norm(c.func) == 'self._view_buffer']
+    seen = []
+    for c in views:
+        names = [x.id for x in c.args[:2] if isinstance(x, ast.Name)]
+        ok = len(names) == 2 and tuple(names) in pairs
+        seen.append(tuple(names))
+        rep.ob('swap.operands-paired', 'swap_: %s takes a name with its own subscripts' % short(c, 50), ok,
+               'the buffer is looked up with the subscripts of the other operand: SWAP changes an element that was not named', ctx.where(c))
+    rep.ob('swap.operands-paired', 'swap_ views both operands, once each', sorted(seen) == sorted(pairs), repr(seen), ctx.where(sw))
+    ex = [a for a in own_nodes(sw) if isinstance(a, ast.Assign) and isinstance(a.targets[0], ast.Tuple) and isinstance(a.value, ast.Tuple) and len(a.value.elts) == 2
+          and all(isinstance(t, ast.Subscript) for t in a.targets[0].elts)]
+    ok = False
+    if len(ex) == 1:
+        l, r = (norm(t.value) for t in ex[0].targets[0].elts)
+        ok = [norm(v) for v in ex[0].value.elts] == ['%s.tobytes()' % r, '%s.tobytes()' % l]
+        srcs = dict((norm(a.targets[0]), a.value) for a in own_nodes(sw) if isinstance(a, ast.Assign) and isinstance(a.targets[0], ast.Name))
+        ok = ok and all(n in srcs and srcs[n] in views for n in (l, r)) and l != r
+    rep.ob('swap.operands-paired', 'swap_ stores each buffer`s bytes into the other', ok, '', ctx.where(sw))
+
+
+def _sigil_survives(ctx, rep):
+    """A name written with a type character keeps it: read_name cuts the name to 40 characters before it appends the
+    sigil, and nothing cuts the name afterwards -- otherwise A...A% and A...A$ (40+ characters) are one variable."""
+    rn = ctx.fn('pcbasic/basic/base/codestream.py:CodeStream.read_name')
+    fl = ctx.flow(rn)
+    app = [a for a in own_nodes(rn) if isinstance(a, ast.AugAssign) and norm(a.target) == 'name' and isinstance(a.op, ast.Add)
+           and any(f.text == 'd in tk.SIGILS' and f.pol for f in fl.facts(a))]
+    rep.ob('names.sigil-survives-truncation', 'read_name appends the type character it reads', len(app) == 1, '', ctx.where(rn))
+    if len(app) != 1:
+        return
+    pos = (app[0].lineno, app[0].col_offset)
+    cuts = [n for n in own_nodes(rn) if isinstance(n, ast.Subscript) and isinstance(n.slice, ast.Slice) and norm(n.value) == 'name']
+    rep.floor('names.sigil-survives-truncation', len(cuts), 1, 'truncations of the name')
+    for c in cuts:
+        rep.ob('names.sigil-survives-truncation', 'read_name: %s comes before the type character is appended' % norm(c),
+               (c.lineno, c.col_offset) < pos and ctx.fold(c.slice.upper) == 40 and c.slice.lower is None,
+               'the name is cut after the type character has been appended: a 40-character name loses its sigil and all four types collapse into one variable', ctx.where(c))
+    rets = [r for r in own_nodes(rn) if isinstance(r, ast.Return) and (r.lineno, r.col_offset) > pos]
+    rep.ob('names.sigil-survives-truncation', 'read_name returns the whole name, upper-cased', [norm(r.value) for r in rets] == ['name.upper()'],
+           repr([norm(r.value) for r in rets]), ctx.where(rn))
+
+
 def check(ctx, rep):
+    _swap_pairs(ctx, rep)
+    _sigil_survives(ctx, rep)
     from . import c12, c10, _share
     _share.share(ctx, rep, c10, ('temporaries.boundary', 'roots.argument'), 'a live string is never treated as a temporary or read after it may have been collected (assigning one variable must not change another)')
     _share.share(ctx, rep, c12, ('index.',), 'distinct in-bounds subscript tuples get distinct element offsets (mixed-radix numeral)')
@@ -203,6 +256,10 @@ def variants(ctx):
         return lambda tree: f(mu.find_def(tree, f_name))
 
     return [
+        Va('swap-second-operand-with-first-subscripts', 'break', M,
+           in_fn('DataSegment.swap_', lambda fn: mu.replace_expr(fn, mu.text_is('self._view_buffer(name2, index2, True)'), 'self._view_buffer(name2, index1, True)')), expect='swap.operands-paired'),
+        Va('name-cut-after-sigil', 'break', 'pcbasic/basic/base/codestream.py',
+           in_fn('CodeStream.read_name', _cut_in_return), expect='names.sigil-survives-truncation'),
         Va('dereference-reads-last-array', 'break', A,
            lambda tree: mu.replace_expr(mu.find_def(tree, 'Arrays.dereference'), mu.text_is('self._buffers[found_name]'), 'self._buffers[name]'), expect='search.loop-variable'),
         Va('let-copies-field-strings-only', 'break', M,
@@ -230,3 +287,8 @@ def variants(ctx):
            in_fn('Scalars.get_memory', lambda fn: mu.insert_before(fn, mu.text_is('the_var = name'), 'break', after=True)), expect='search'),
         Va('rename-locals', 'neutral', A, in_fn('Arrays.dereference', lambda fn: mu.rename_local(fn, 'addr', 'element_address'))),
     ]
+
+
+def _cut_in_return(fn):
+    ok = mu.remove_stmt(fn, mu.text_is('name = name[:40]'))
+    return ok and mu.replace_expr(fn, mu.text_is('name.upper()'), 'name[:40].upper()')
